@@ -273,8 +273,8 @@ def replay_half(v, cov, tier):
     simulation mode are stepped through the real disk cache, one goroutine per model goroutine held at
     the verif gates; directory, index order, counters and program counters are compared after every step.
     Two configurations: without and with a proxy backend."""
-    for cfg, label, n in [("CacheReplay.cfg", "sched", 200 if tier == "quick" else 4000),
-                          ("CacheReplay_b.cfg", "sched+backend", 200 if tier == "quick" else 4000)]:
+    for cfg, label, n in [("CacheReplay.cfg", "sched", 200 if tier == "quick" else 1500),
+                          ("CacheReplay_b.cfg", "sched+backend", 200 if tier == "quick" else 1500)]:
         r = run_tlc("CacheReplay.tla", cfg, workers=1, timeout=3000, simulate=f"num={n}",
                     extra=["-depth", "140", "-seed", str(seed())], keep_prints=True)
         if not r.ok and not r.prints:
@@ -338,9 +338,9 @@ def c03(prop, tier):
     s = seed()
     q = tier == "quick"
     plans = [
-        ("seq", ["seq", "-seed", str(s), "-hists", "24" if q else "400", "-ops", "40" if q else "60"]),
-        ("stress", ["stress", "-seed", str(s), "-hists", "4" if q else "40", "-workers", "8"]),
-        ("lru", ["lru", "-seed", str(s), "-hists", "40" if q else "1500", "-ops", "80"]),
+        ("seq", ["seq", "-seed", str(s), "-hists", "24" if q else "200", "-ops", "40" if q else "60"]),
+        ("stress", ["stress", "-seed", str(s), "-hists", "4" if q else "24", "-workers", "8"]),
+        ("lru", ["lru", "-seed", str(s), "-hists", "40" if q else "600", "-ops", "80"]),
     ]
     return index_family(prop, tier, plans)
 
@@ -350,9 +350,9 @@ def c04(prop, tier):
     s = seed() + 1000
     q = tier == "quick"
     plans = [
-        ("seq", ["seq", "-seed", str(s), "-hists", "24" if q else "400", "-ops", "40" if q else "60"]),
-        ("stress", ["stress", "-seed", str(s), "-hists", "4" if q else "40", "-workers", "6"]),
-        ("lru", ["lru", "-seed", str(s), "-hists", "40" if q else "1500", "-ops", "80"]),
+        ("seq", ["seq", "-seed", str(s), "-hists", "24" if q else "200", "-ops", "40" if q else "60"]),
+        ("stress", ["stress", "-seed", str(s), "-hists", "4" if q else "24", "-workers", "6"]),
+        ("lru", ["lru", "-seed", str(s), "-hists", "40" if q else "600", "-ops", "80"]),
     ]
     return index_family(prop, tier, plans)
 
@@ -362,8 +362,8 @@ def c05(prop, tier):
     s = seed() + 2000
     q = tier == "quick"
     plans = [
-        ("seq", ["seq", "-seed", str(s), "-hists", "30" if q else "600", "-ops", "50" if q else "80"]),
-        ("lru", ["lru", "-seed", str(s), "-hists", "40" if q else "1500", "-ops", "80"]),
+        ("seq", ["seq", "-seed", str(s), "-hists", "30" if q else "250", "-ops", "50" if q else "80"]),
+        ("lru", ["lru", "-seed", str(s), "-hists", "40" if q else "600", "-ops", "80"]),
     ]
     return index_family(prop, tier, plans)
 
@@ -373,9 +373,9 @@ def c07(prop, tier):
     s = seed() + 3000
     q = tier == "quick"
     plans = [
-        ("stress", ["stress", "-seed", str(s), "-hists", "8" if q else "80", "-workers", "8"]),
+        ("stress", ["stress", "-seed", str(s), "-hists", "8" if q else "40", "-workers", "8"]),
         ("stress16", ["stress", "-seed", str(s + 1), "-hists", "2" if q else "20", "-workers", "16", "-ops", "8"]),
-        ("lru", ["lru", "-seed", str(s), "-hists", "40" if q else "1500", "-ops", "80"]),
+        ("lru", ["lru", "-seed", str(s), "-hists", "40" if q else "600", "-ops", "80"]),
     ]
     # whole values through the front ends: concurrent clients, identity and zstd transport
     return index_family(prop, tier, plans, extra=[("festress", ["festress", "-seed", str(s), "-tier", tier])])
@@ -386,7 +386,7 @@ def c17(prop, tier):
     s = seed() + 4000
     q = tier == "quick"
     plans = [
-        ("seq", ["seq", "-seed", str(s), "-hists", "24" if q else "300", "-ops", "40" if q else "60"]),
+        ("seq", ["seq", "-seed", str(s), "-hists", "24" if q else "200", "-ops", "40" if q else "60"]),
     ]
     return index_family(prop, tier, plans)
 
